@@ -196,8 +196,9 @@ func (u *Upstream) waitToSendAllDataPointsAndReceiveAllAck(ctx context.Context) 
 		return errors.Errorf("failed to flush chunk: %w", err)
 	}
 
-	alreadyReceivedLastSentAck := atomic.LoadUint32(&u.maxSequenceNumberInReceivedUpstreamChunkResults) == u.sequence.CurrentValue()
-	if alreadyReceivedLastSentAck {
+	// An ack for the highest sequence number does not imply that every earlier chunk has been
+	// acknowledged (acks may arrive in any order), so only a stream that never sent a chunk may skip the wait.
+	if u.sequence.CurrentValue() == 0 {
 		return nil
 	}
 
